@@ -70,13 +70,14 @@ type ContractSet struct {
 	Lemmas     []Clause // SMT-level lemmas stated over spec functions (proved once)
 	TypeInvs   map[string][]Clause
 	FieldInvs  map[string][]Clause   // "Struct.field" -> invariants over $v (assumed at loads, proved at stores)
+	Buffered   []*GuardDecl // channel fields that are sent to while a mutex is held: must be created with a positive constant capacity
 	Guards     map[string]*GuardDecl // synchronisation discipline per struct field (C09)
 	ChanInvs   map[string][]Clause   // invariant of the values travelling on channels of an element type: proved at sends, assumed at receives
 	FieldAsms  map[string][]Clause   // lifecycle / configuration facts: assumed at loads in safety mode, never proved
 	Files      []string
 }
 
-var clauseKw = regexp.MustCompile(`^(func|iface|callback|spawn|fieldassume|fieldinv|safetyinv|sensures|srequires|borrowed-result|pool-result|releases|chaninv|guarded|confined|immutable|atomicfield|unshared|holds|revent|event|step|uses|assumes|assume|requires|ensures|modifies|loop|invariant|decreases|unroll|trusted|props|safety|noinline|global-invariant|lemma|typeinv|end)\b`)
+var clauseKw = regexp.MustCompile(`^(func|iface|callback|spawn|fieldassume|fieldinv|safetyinv|sensures|srequires|borrowed-result|pool-result|releases|chaninv|guarded|confined|immutable|atomicfield|unshared|bufferedchan|holds|revent|event|step|uses|assumes|assume|requires|ensures|modifies|loop|invariant|decreases|unroll|trusted|props|safety|noinline|global-invariant|lemma|typeinv|end)\b`)
 
 // LoadContracts reads //@ comment blocks from the given files.
 func LoadContracts(files ...string) (*ContractSet, error) {
@@ -171,7 +172,7 @@ func (cs *ContractSet) loadFile(path string) error {
 				return err
 			}
 			cs.Lemmas = append(cs.Lemmas, c)
-		case "guarded", "confined", "immutable", "atomicfield", "unshared":
+		case "guarded", "confined", "immutable", "atomicfield", "unshared", "bufferedchan":
 			// guarded T.f | confined T.f: root, root | immutable T.f | atomicfield T.f | unshared T.f: reason
 			txt := strings.TrimSpace(r.text)
 			rest := ""
@@ -186,6 +187,11 @@ func (cs *ContractSet) loadFile(path string) error {
 				}
 			} else {
 				gd.Reason = rest
+			}
+			if r.kw == "bufferedchan" {
+				// an additional property of a channel-typed field, kept beside its sharing discipline
+				cs.Buffered = append(cs.Buffered, gd)
+				continue
 			}
 			cs.Guards[txt] = gd
 		case "chaninv":
